@@ -7,7 +7,7 @@
    Executable definitions only. This file is glue between the script language and the LTS; it is
    in the trusted base of the correspondence check, not of the theorems. *)
 From Coq Require Import NArith List Bool.
-From LLRP Require Import Client.Types Client.Model.
+From LLRP Require Import Client.Types Client.Model Client.ModelX.
 Import ListNotations.
 Open Scope N_scope.
 
@@ -56,7 +56,8 @@ Record mstate := mkM {
 Record sconfig := mkSC {
   sc_cfg : config;
   sc_modes : list (N * hb);     (* behaviour of the scripted typed handlers *)
-  sc_default : hb               (* behaviour of the scripted default handler *)
+  sc_default : hb;              (* behaviour of the scripted default handler *)
+  sc_watch : bool               (* Connect selects on errs while negotiating (ModelX.xstep); false = today's code *)
 }.
 
 Definition minit (sc : sconfig) : mstate :=
@@ -64,7 +65,7 @@ Definition minit (sc : sconfig) : mstate :=
 
 Definition with_st (m : mstate) (s : state) (e : event) : mstate :=
   mkM s (e :: m_events m) (m_peerq m) (m_peer_closed m) (m_seen m) (m_fail m) (m_failed m) (m_started m) (m_fuel_out m).
-Definition fire (sc : sconfig) (m : mstate) (e : event) : mstate := with_st m (step (sc_cfg sc) (m_st m) e) e.
+Definition fire (sc : sconfig) (m : mstate) (e : event) : mstate := with_st m (xstep (sc_watch sc) (sc_cfg sc) (m_st m) e) e.
 Definition set_peerq (q : list pframe) (m : mstate) : mstate :=
   mkM (m_st m) (m_events m) q (m_peer_closed m) (m_seen m) (m_fail m) (m_failed m) (m_started m) (m_fuel_out m).
 Definition set_seen (l : list oframe) (m : mstate) : mstate :=
@@ -109,7 +110,10 @@ Definition next_internal (sc : sconfig) (m : mstate) : option (event * mstate) :
     | PNegotiating NGsv None | PNegotiating NSpv None => Some (NegSubmit (neg_caller s))
     | PNegotiating NDone _ => Some ConnReady
     | PNegotiating _ (Some c) =>
-        match lookup c (callers s) with Some (Done _ _) => Some NegStep | _ => None end
+        match lookup c (callers s) with
+        | Some (Done _ _) => Some NegStep
+        | _ => if sc_watch sc then match errs s with _ :: _ => Some (ConnSelect true) | [] => None end else None
+        end
     | PReady =>
         match errs s with
         | _ :: _ => Some (ConnSelect true)
@@ -321,4 +325,4 @@ Definition run_script (sc : sconfig) (steps : list sstep) : mstate * list obs :=
 
 (* sanity: the collected events reproduce the final state *)
 Definition replay_ok (sc : sconfig) (m : mstate) : state :=
-  run (sc_cfg sc) (rev (m_events m)).
+  xrun (sc_watch sc) (sc_cfg sc) (rev (m_events m)).
